@@ -100,6 +100,27 @@ def generate(rng, tier):
             for qtag in ("sta", "dyn"):
                 cases.append({"line": i2_line(S, xs, ys, shape, flat, False, e_ainto(S, [len(qx)], bad, qx, qy, qtag=qtag, lay=ql, blay=bl),
                                               dtag="dyn"), "meta": {"badbuf": True}})
+    # long batches (seed C19-r8m1: a fast path that looks the interval indices of 32 queries up in one block — with the index of the *raw*
+    # query where a periodic, extrapolating spline evaluates at the wrapped position): 33 .. 70 queries, in and out of range, every strategy
+    for _ in range(gen.N(tier, 24, 240)):
+        n = rng.choice([4, 5, 7])
+        xs = gen.axis_f(rng, n, rng.choice(["uniform", "random"]))
+        trailing = rng.choice([[], [], [2]])
+        L = gen.shape_size(trailing)
+        flat = [rng.uniform(-3, 3) for _ in range(n * L)]
+        strat = rng.choice([("spl", True, "per"), ("spl", True, "per"), ("spl", True, "nak"), ("lin", True), ("spl", False, "nat")])
+        if strat[0] == "spl" and strat[2] == "per":
+            flat[(n - 1) * L:] = flat[:L]
+        nq = rng.choice([33, 40, 64, 70])
+        span = xs[-1] - xs[0]
+        qs = [rng.uniform(xs[0], xs[-1]) for _ in range(nq)]
+        if strat[1]:
+            for _ in range(rng.randint(1, 6)):
+                qs[rng.randrange(nq)] = xs[0] + span * rng.uniform(-4, 5)
+        ql = rng.choice(["c", "rev", "s2"])
+        for qtag in ("sta", "dyn"):
+            cases.append({"line": i1_line("F", xs, [n] + trailing, flat, strat, e_array("F", [nq], qs, qtag=qtag, lay=ql), dtag=rng.choice(["sta", "dyn"])),
+                          "meta": {"oob": False}})
     # signed zeros (seed C19-r7m1: a fast path that copies the previous result row when the next query compares equal to the previous
     # one — +0.0 == -0.0, but the two queries give results that differ in the sign of a zero): a knot at exactly 0, samples -0.0 / 0.0 there,
     # neighbouring queries 0.0, -0.0 in both orders, and plain repeated queries
